@@ -44,7 +44,8 @@ def parse_log(log):
                 else: r['cover_unsat'] += 1
                 continue
             if status in ('FAILURE', 'UNDETERMINED'):
-                mine = ('.assertion.' in cid and ('/verif/kani' in (loc or '') or 'src/lib.rs' in (loc or '') or 'in_crate' in (loc or ''))) or '.unwind.' in cid
+                l = (loc or '').strip()
+                mine = ('.assertion.' in cid and ('/verif/kani' in l or l.startswith('src/') or 'in_crate' in l)) or '.unwind.' in cid
                 if mine:
                     r['failed'].append({'check': cid, 'status': status, 'description': desc, 'location': loc})
                 else:
